@@ -34,6 +34,16 @@
 (*        p99.99; scaled, monotone rounding); lo/hi = smallest / largest sample *)
 (*        retained for the sources of this entry (-1: not observable)      *)
 (*   AggDone(m, sel, nkeys)  the aggregate of metric m had nkeys entries    *)
+(*   PassBegin / PassEnd   an Aggregate call starts / returns while other    *)
+(*        greenlets keep recording.  The entries of that pass are in the     *)
+(*        trace right before its PassEnd.  "Aggregated ... equal the sum of   *)
+(*        all increments recorded": recorded up to when?  An aggregate taken  *)
+(*        while recordings go on may reflect any instant of the pass, so an   *)
+(*        entry (and the number of entries) is accepted iff it is right for   *)
+(*        the recordings made up to SOME instant between PassBegin and        *)
+(*        PassEnd (awin = the states of the machine at those instants; every  *)
+(*        single recording is an instant).  Each entry may pick its own       *)
+(*        instant.  Outside a pass the only instant is now.                   *)
 (*                                                                         *)
 (* Check operators return "ok" or the name of the first failing clause,    *)
 (* evaluated in the state before the event; Upd operators are unguarded.   *)
@@ -69,9 +79,10 @@ EXTENDS Integers, Sequences, FiniteSets, FiniteSetsExt, TLC
 
 VARIABLES akinds,   \* sequence: metric id -> kind
           ascale,   \* scale of reported totals / percentiles (1000)
-          adata     \* metric id -> [source tuple -> [sum, last, vals]]
+          adata,    \* metric id -> [source tuple -> [sum, last, vals]]
+          awin      \* open pass: the values adata had since PassBegin; {} when no pass is open
 
-avars == <<akinds, ascale, adata>>
+avars == <<akinds, ascale, adata, awin>>
 
 SumKinds == {"counter", "rate"}
 IncKinds == {"counter", "rate", "aggtimer"}
@@ -92,10 +103,13 @@ AInit(kinds, scale) ==
   /\ akinds = kinds
   /\ ascale = scale
   /\ adata = [m \in DOMAIN kinds |-> <<>>]
+  /\ awin = {}
 
 Fresh == [sum |-> 0, last |-> 0, vals |-> {}]
 Cell(m, t) == IF t \in DOMAIN adata[m] THEN adata[m][t] ELSE Fresh
-Put(m, t, c) == adata' = [adata EXCEPT ![m] = [x \in DOMAIN @ \cup {t} |-> IF x = t THEN c ELSE @[x]]]
+Win == awin' = IF awin = {} THEN {} ELSE awin \cup {adata'}       \* every recording inside a pass is an instant
+Put(m, t, c) == /\ adata' = [adata EXCEPT ![m] = [x \in DOMAIN @ \cup {t} |-> IF x = t THEN c ELSE @[x]]]
+                /\ Win
 
 UpdSane(m, t, kinds) ==
   IF m \notin DOMAIN akinds THEN "harness.metric"
@@ -125,6 +139,7 @@ IncRunUpd(m, ts, amts) ==
                      IF x \in R THEN LET c == IF x \in DOMAIN old THEN old[x] ELSE Fresh
                                      IN [c EXCEPT !.sum = @ + add[x]]
                      ELSE old[x]]]
+     /\ Win
      /\ UNCHANGED <<akinds, ascale>>
 
 \* "lands in one series": the reservoir had room, yet the series of t that VARZ_DATA shows did not take the sample
@@ -136,12 +151,13 @@ SampleCheck(m, t, v, room, took) ==
 SampleUpd(m, t, v) == Put(m, t, [Cell(m, t) EXCEPT !.vals = @ \cup {v}]) /\ UNCHANGED <<akinds, ascale>>
 
 \* ---- aggregation -----------------------------------------------------------
-Group(m, sel, key) == {t \in DOMAIN adata[m] : KeyOf(sel, t) = key}
-GroupSum(m, G) == FoldSet(LAMBDA t, acc : acc + adata[m][t].sum, 0, G)
+\* d is the value of adata at the instant the entry is judged against
+Group(d, m, sel, key) == {t \in DOMAIN d[m] : KeyOf(sel, t) = key}
+GroupSum(d, m, G) == FoldSet(LAMBDA t, acc : acc + d[m][t].sum, 0, G)
 TheOne(G) == CHOOSE t \in G : TRUE
 
-PctOk(m, t, pcts, lo, hi) ==
-  LET V == adata[m][t].vals
+PctOk(d, m, t, pcts, lo, hi) ==
+  LET V == d[m][t].vals
       obs == lo \in V /\ hi \in V      \* observed retained bounds are usable
       L == IF obs THEN lo ELSE Min(V)  \* otherwise every recorded sample bounds the retained ones
       H == IF obs THEN hi ELSE Max(V)
@@ -149,18 +165,26 @@ PctOk(m, t, pcts, lo, hi) ==
      /\ \A i \in 1..(Len(pcts) - 1) : pcts[i] <= pcts[i + 1]
      /\ pcts[Len(pcts)] <= ascale * H
 
-\* The set of C18 clauses this aggregate entry breaks.  A key no recorded source maps to
+\* The set of C18 clauses this aggregate entry breaks at instant d.  A key no recorded source maps to
 \* has an empty group: its counter/rate total must be 0 and no series may feed it.
-AggFail(m, sel, key, total, series, cnt, pcts, lo, hi) ==
-  LET G == Group(m, sel, key)
+AggFailAt(d, m, sel, key, total, series, cnt, pcts, lo, hi) ==
+  LET G == Group(d, m, sel, key)
       kind == akinds[m]
   IN {c \in {"C18.sum", "C18.gauge", "C18.percentileBounds", "C18.oneSeries"} :
-        \/ c = "C18.sum" /\ kind \in SumKinds /\ total # ascale * GroupSum(m, G)
+        \/ c = "C18.sum" /\ kind \in SumKinds /\ total # ascale * GroupSum(d, m, G)
         \/ c = "C18.gauge" /\ kind = "gauge" /\ Cardinality(G) = 1
-                           /\ total # ascale * adata[m][TheOne(G)].last
+                           /\ total # ascale * d[m][TheOne(G)].last
         \/ c = "C18.percentileBounds" /\ kind \in PctKinds /\ Cardinality(G) = 1 /\ cnt # 0
-                           /\ ~PctOk(m, TheOne(G), pcts, lo, hi)
-        \/ c = "C18.oneSeries" /\ (series > Cardinality(DOMAIN adata[m]) \/ cnt > Cardinality(G))}
+                           /\ ~PctOk(d, m, TheOne(G), pcts, lo, hi)
+        \/ c = "C18.oneSeries" /\ (series > Cardinality(DOMAIN d[m]) \/ cnt > Cardinality(G))}
+
+\* the instants an aggregate may reflect: those of the open pass, else now
+Instants == IF awin = {} THEN {adata} ELSE awin
+
+\* right at some instant: no clause broken; otherwise the clauses broken now
+AggFail(m, sel, key, total, series, cnt, pcts, lo, hi) ==
+  IF \E d \in Instants : AggFailAt(d, m, sel, key, total, series, cnt, pcts, lo, hi) = {} THEN {}
+  ELSE AggFailAt(adata, m, sel, key, total, series, cnt, pcts, lo, hi)
 
 First(F) == IF "C18.sum" \in F THEN "C18.sum"
             ELSE IF "C18.gauge" \in F THEN "C18.gauge"
@@ -176,8 +200,8 @@ AggCheck(m, sel, key, total, series, cnt, pcts, lo, hi) ==
 
 \* A key whose sources have recorded data must be reported.
 AggDoneFail(m, sel, nkeys) ==
-  LET want == Cardinality({KeyOf(sel, t) : t \in DOMAIN adata[m]})
-  IN IF nkeys >= want THEN {}
+  LET Want(d) == Cardinality({KeyOf(sel, t) : t \in DOMAIN d[m]})
+  IN IF \E d \in Instants : nkeys >= Want(d) THEN {}
      ELSE IF akinds[m] \in SumKinds THEN {"C18.sum"}
      ELSE IF akinds[m] = "gauge" THEN {"C18.gauge"}
      ELSE {}
@@ -188,6 +212,13 @@ AggDoneCheck(m, sel, nkeys) ==
   ELSE First(AggDoneFail(m, sel, nkeys))
 
 AggUpd == UNCHANGED avars
+
+PassBeginCheck == IF awin # {} THEN "harness.pass" ELSE "ok"
+PassBeginUpd == awin' = {adata} /\ UNCHANGED <<akinds, ascale, adata>>
+PassEndCheck == IF awin = {} THEN "harness.pass" ELSE "ok"
+PassEndUpd == awin' = {} /\ UNCHANGED <<akinds, ascale, adata>>
+PassBegin == PassBeginCheck = "ok" /\ PassBeginUpd
+PassEnd == PassEndCheck = "ok" /\ PassEndUpd
 
 Inc(m, t, amt) == IncCheck(m, t, amt) = "ok" /\ IncUpd(m, t, amt)
 Set(m, t, v) == SetCheck(m, t, v) = "ok" /\ SetUpd(m, t, v)
